@@ -228,6 +228,8 @@ def rule_chunk(rep):
         raise ir.AnchorMissing("trait Resampler")
     d = [f for f in tr["fns"] if f["name"] == "set_chunk_size"]
     ok = False
+    for f in d:
+        facts.touch("trait Resampler::set_chunk_size", f)
     if d and d[0].get("body"):
         b = [s for s in d[0]["body"]["stmts"]]
         ok = len(b) == 1 and b[0]["k"] == "expr" and nbit(b[0]["e"]) == "Err(ResampleError::ChunkSizeNotAdjustable)"
